@@ -22,6 +22,7 @@ def parseEv (s : String) : Option Ev :=
   | ["X"] => some .close
   | ["L"] => some .lost
   | ["Z", b] => some (.setReset (b == "1"))
+  | ["N"] => some .connect
   | _ => none
 
 def handle : List String → Option String
